@@ -155,3 +155,53 @@ def eval_response_call(prog: Program, ce: ConstEval, m: Any, e: ast.AST, env: Op
     hdrs = vals['headers'] if isinstance(vals['headers'], dict) else {}
     return {'status': vals['status_code'], 'reason': vals['reason'], 'headers': hdrs, 'headers_raw': vals['headers'], 'body': vals['body'],
             'conn_close': vals['conn_close'], 'no_cl': vals['no_cl'], 'call': call, 'star': vals.get('**')}
+
+
+def opaque_relay_check(ch: Checker, rule: str) -> None:
+    """Outside a CONNECT tunnel, client bytes may go to the upstream unparsed only while a protocol upgrade is in effect.
+    An upgrade is merely OFFERED by request headers; it is in effect once the upstream answered 101.  So every state that
+    enables opaque relay must be revocable: some store in HttpProxyPlugin resets it on a path where a completed response
+    is known not to be 101.  (A state derived from the first request's headers can never be revoked.)"""
+    prog = ch.prog
+    hp = prog.class_named('HttpProxyPlugin')
+    ocd = prog.own_method('HttpProxyPlugin', 'on_client_data')
+    g = cfg_of(ocd, prog, exc_edges=False)
+    # receivers R for which `R = None` happens somewhere under "response code is not 101"
+    revocable: Dict[str, str] = {}
+    for fn in hp.methods.values():
+        if not any(isinstance(x, ast.Constant) and x.value == b'101' for x in ast.walk(fn.node)):
+            continue
+        gg = cfg_of(fn, prog, exc_edges=False)
+        for p in fpaths(gg):
+            for i, st in p.stmts():
+                if isinstance(st, ast.Assign) and len(st.targets) == 1 and attr_chain(st.targets[0]) and norm(st.value) == 'None':
+                    fd = allfacts(p, i)
+                    if any(v is False and k.replace(' ', '').endswith(".code==b'101'") for k, v in fd.items()):
+                        revocable[attr_chain(st.targets[0])] = fn.qualname  # type: ignore[index]
+    sites: Dict[str, Tuple[bool, str, List[str], int]] = {}
+    raw = ocd.params[1]
+    for p in fpaths(g):
+        ch.paths += 1
+        sym = Sym(p)
+        for i, st in p.stmts():
+            for c in walk_no_nested(st):
+                if not (isinstance(c, ast.Call) and attr_chain(c.func) == 'self.upstream.queue' and c.args):
+                    continue
+                if _build_call_in(sym.value(c.args[0], i)) is not None:
+                    continue
+                fd = allfacts(p, i)
+                tunnel_opaque = fd.get('self.request.is_https_tunnel') is True and fd.get('self._tls_intercept_enabled') is False
+                if tunnel_opaque or fd.get('self.request.is_complete') is not True:
+                    continue       # CONNECT tunnel without interception: opaque by definition
+                ups = sorted(k for k, v in fd.items() if v is True and k.endswith('.is_connection_upgrade'))
+                label = 'opaque relay of client bytes outside a tunnel under [%s]' % (', '.join(ups) or 'no upgrade state')
+                ok = bool(ups) and all(k.rsplit('.', 1)[0] in revocable for k in ups)
+                prev = sites.get(label)
+                sites[label] = ((prev[0] if prev else True) and ok, label, p.describe(18), c.lineno)
+    for ok, label, wit, line in sites.values():
+        ch.check(ok, rule, ocd, label, 'the enabling state is dropped when a response other than 101 completes (%s)' % sorted(revocable.items()),
+                 'client bytes are queued to the upstream unparsed outside a CONNECT tunnel on the strength of request headers alone, and nothing revokes that when the upstream declines the '
+                 'upgrade (answers anything but 101): every later request on the connection then reaches the origin as sent -- absolute-form target, Proxy-Authorization and '
+                 'disabled headers included', witness=wit, line=line)
+    if not sites:
+        ch.ok(rule, ocd, 'opaque relay outside a tunnel', 'client bytes are never relayed unparsed outside a CONNECT tunnel')
